@@ -114,14 +114,13 @@ Qed.
 (* ---- the whole oracle, on the model ---- *)
 Theorem spec_b_model : forall c d,
   wfj (JObj d) = true ->
-  (allow c = [] \/ prefix_free (map split_dot (allow c))) ->
   spec_b c d
     (obs_of (format {| target := target c; allow := []; deny := []; mapping := []; group := "" |} d))
     (obs_of (format {| target := target c; allow := allow c; deny := deny c; mapping := []; group := "" |} d))
     (obs_of (format c d)) = true.
 Proof.
-  intros c d Hwf Hpf.
-  destruct (stages_model c d Hwf Hpf) as [f [Ht [Hf [Hok [Hfmt [Hug Hmp]]]]]].
+  intros c d Hwf.
+  destruct (stages_model c d Hwf) as [f [Ht [Hf [Hok [Hfmt [Hug Hmp]]]]]].
   rewrite Ht, Hf, Hfmt. cbn [obs_of]. unfold spec_b. rewrite Hok, Hug.
   assert (Hwt : wfj (JObj (target_spec c d)) = true).
   { destruct (target_spec_path c d) as [-> | [-> | [q Hq]]]; [exact Hwf|reflexivity|].
